@@ -87,6 +87,8 @@ Section LfudaBridge.
 
   (* rewriting with the known content of node [n] *)
   Ltac red1 := repeat progress (proj; cbn [bind]).
+  (* after a case split of a natural number into 0 / S u: every comparison of it with a numeral computes *)
+  Ltac nred := repeat progress (proj; cbn [bind negb andb orb Nat.ltb Nat.leb Nat.eqb]).
   Ltac vnorm N L :=
     red1; repeat (first [ rewrite (vget_ok _ _ _ _ _ N)
                         | rewrite (vset_lt _ _ _ _ _ L)
@@ -205,9 +207,12 @@ Section LfudaBridge.
 
   Lemma g_do_prune_ok (s : lfdl K V) now : req (g_do_prune s now) (dl_do_prune true s now).
   Proof.
+    (* the test "the cache is not empty" is never looked at in the form the source gives it (> 0, != 0, an
+       early return on == 0, !(... > 0), < 1, ...), nor is the shape of the statement around it (if/else in a
+       bind, or a guard clause whose branches come in the other order): the SEMANTIC fact — is m_used_size
+       zero? — is split first, and every test over the numeral 0 / S u computes on both sides *)
     unfold g_do_prune, dl_do_prune.
-    match goal with |- req (bind (if ?c then _ else _) _) (if ?d then _ else _) => same c d end.
-    lit_if; [|simpl; auto]. red1.
+    destruct (dl_used s) as [|u] eqn:U; nred; [cbn [req]; reflexivity|].
     callee (g_do_dynamic_age_ok s now).
     destruct (g_do_dynamic_age s now) as [[s1 a1]|], (dl_dynamic_age s now) as [[s2 a2]|]; red1; intros P; try contradiction; auto.
     inversion P; subst. unfold mm_second, mm_begin.
